@@ -352,4 +352,197 @@ theorem stepL_accept {cfg : Cfg} {M : List Nat} {adr : Nat → Nat} {n : Net} {v
     · unfold NView.turn
       simp only [hph, hsucc]
 
+/-- **An event on a listening station.** -/
+theorem stepL {cfg : Cfg} {M : List Nat} {adr : Nat → Nat} {n : Net} {v : NView} (h : NInv cfg M adr n v)
+    (hok : cfg.Ok) (j : Nat) (hjx : j ≠ v.x) (now : Int) (e : EvOkN cfg n v.tl j now) :
+    NStepOut cfg M adr n v j now := by
+  obtain ⟨st, hst, hL⟩ := h.lis j e.ilt hjx
+  have hnowH := h.now_le_H j now e
+  have hH := h.horizon hok
+  obtain ⟨inc, c, hd, hp, htx, hcase⟩ := listener_step hL hok h.ring h.log e.ilt now e.own hnowH
+    (fun t ht => Int.le_trans (h.tlt t ht) e.tl)
+    (fun t ht => by rw [h.last] at ht; cases ht; exact hH)
+  rcases hcase with hL' | ⟨htok, hokS, a1, a2, a3, a4, a5, a6⟩
+  · exact stepL_stay h hok j hjx now e st hst hL inc c hd hp htx hL'
+  · exact stepL_accept h hok j hjx now e st hst hL inc c hd hp htx htok hokS a1 a2 a3 a4 a5 a6
+
+/-! ## Events on the station whose turn it is -/
+
+/-- Nothing is delivered to the station whose turn it is. -/
+theorem NInv.deliverX {cfg : Cfg} {M : List Nat} {adr : Nat → Nat} {n : Net} {v : NView} (h : NInv cfg M adr n v)
+    (hok : cfg.Ok) (now : Int) (hsn : n.bus.seen.getD v.x 0 ≤ now) :
+    n.bus.deliver v.x now = ({ n.bus with seen := n.bus.seen.set v.x now }, []) := by
+  obtain ⟨inc, hd, hcat⟩ := listener_deliver h.ring h.log hok.rate v.x now n.bus.txs [] (by simp) h.doneX
+    (fun t ht => by cases ht) hsn
+  simp only [arrived, List.map_nil, List.flatten_nil, List.nil_append] at hcat
+  rw [hd, hcat]
+
+def NView.setX (v : NView) (c : Ctx) (now : Int) : NView := { v with sx := upSt v.sx c, tl := now }
+
+/-- A poll of the station whose turn it is that transmits nothing and keeps its phase and stamp. -/
+theorem ninv_quiet_x {cfg : Cfg} {M : List Nat} {adr : Nat → Nat} {n : Net} {v : NView} (h : NInv cfg M adr n v)
+    (hok : cfg.Ok) (now : Int) (e : EvOkN cfg n v.tl v.x now) (c : Ctx)
+    (hp : v.sx.s.poll [] now (n.bus.transmitting v.x now) [] = .ok c)
+    (htx : c.tx = none) (h1 : c.s.p = v.sx.s.p) (h2 : c.s.ring = v.sx.s.ring) (h3 : c.s.online = true)
+    (h4 : c.s.pendingBytes = 0) (h5 : c.rx = []) (h6 : c.s.lastBusActivity = v.sx.s.lastBusActivity)
+    (hph : PhaseOkN cfg M adr n.stations.length (v.setX c now)
+      (fun j => ({ n.bus with seen := n.bus.seen.set v.x now } : Bus).seen.getD j 0)) :
+    NStepOut cfg M adr n v v.x now := by
+  have hd := h.deliverX hok now (Int.le_of_lt e.own)
+  have hp' : v.sx.s.poll v.sx.apps now (Bus.transmitting { n.bus with seen := n.bus.seen.set v.x now } v.x now)
+      (v.sx.rx ++ []) = .ok c := by rw [h.okx.apps, transmitting_seen, h.rxx]; exact hp
+  have hpe := Net.poll_eq n v.x now v.sx _ [] c h.gx h.okx.alive h.okx.online hd hp'
+  rw [htx] at hpe
+  have hxs : v.x < n.bus.seen.length := by rw [h.log.seen]; exact h.xlt
+  have htl := e.tl
+  refine ⟨_, v.setX c now, [], c, hpe, ?_, rfl, .inl ⟨htx, rfl, rfl⟩⟩
+  unfold NView.setX at hph ⊢
+  refine ⟨by simp only [List.length_set]; exact h.ring, by simp only [List.length_set]; exact h.xlt,
+    List.getElem?_set_self h.xlt, h.okx.step now _ _ c (by rw [← h.okx.apps]; exact hp') h1 (by rw [h2]; exact h.okx.view) h3,
+    by simp only [List.length_set]; exact h.log.seenSet v.x now, h.txs, ?_, ?_, ?_, ?_, ?_, h4, h5, ?_⟩
+  · intro o ho
+    simp only
+    rw [seen_set_self _ _ _ hxs]
+    exact (h.doneX o ho).imp id (fun hh => by have := e.own; omega)
+  · intro l hl o ho hs
+    have hl' : c.s.lastBusActivity = some l := hl
+    rw [h6] at hl'
+    exact h.ownX l hl' o ho hs
+  · intro j hj hjx
+    simp only [List.length_set] at hj
+    obtain ⟨st', hst', hL'⟩ := h.lis j hj hjx
+    exact ⟨st', by simp only; rw [List.getElem?_set_ne (Ne.symm hjx)]; exact hst', hL'.other v.x now (Ne.symm hjx)⟩
+  · intro j hj
+    simp only [List.length_set] at hj
+    simp only
+    by_cases hjj : j = v.x
+    · rw [hjj, seen_set_self _ _ _ hxs]; exact Int.le_refl _
+    · rw [seen_set_other _ _ _ _ (Ne.symm hjj)]; exact Int.le_trans (h.tls j hj) htl
+  · intro t ht; exact Int.le_trans (h.tlt t ht) htl
+  · simp only [List.length_set]; exact hph
+
+def NView.sendX (v : NView) (c : Ctx) (pre' : List Transmission) (b : Bytes) (ph' : Phase) (H' Lo' : Int) (now : Int) : NView :=
+  { x := v.x, sx := upSt v.sx c, pre := pre', tr := { start := now, sender := v.x, bytes := b, dropped := false },
+    ph := ph', H := H', Lo := Lo', tl := now }
+
+/-- A poll of the station whose turn it is that transmits `b`. -/
+theorem ninv_send_x {cfg : Cfg} {M : List Nat} {adr : Nat → Nat} {n : Net} {v : NView} (h : NInv cfg M adr n v)
+    (hok : cfg.Ok) (hP100 : cfg.P ≤ 100000) (now : Int) (e : EvOkN cfg n v.tl v.x now) (c : Ctx) (b : Bytes)
+    (ph' : Phase) (H' Lo' : Int)
+    (hp : v.sx.s.poll [] now (n.bus.transmitting v.x now) [] = .ok c)
+    (htx : c.tx = some b) (h1 : c.s.p = v.sx.s.p) (h2 : RingView M (adr v.x) c.s.ring) (h3 : c.s.online = true)
+    (h4 : c.s.pendingBytes = 0) (h5 : c.rx = []) (hbl : 0 < b.length)
+    (hkind : TxKind M adr n.stations.length { start := now, sender := v.x, bytes := b, dropped := false })
+    (hq1 : v.Lo < now) (hLo : v.Lo ≤ Lo') (hends : ∀ o ∈ n.bus.txs, cEnd cfg o ≤ now)
+    (hnotok : ∀ j, j < n.stations.length → j ≠ v.x → ∀ a, v.tr.bytes ≠ tokenBytes (adr j) a)
+    (hown' : ∀ l, c.s.lastBusActivity = some l → now ≤ l ∧ now + ((cfg.ce (b.length - 1) : Nat) : Int) ≤ l + 1)
+    (hph : ∀ pre', PhaseOkN cfg M adr n.stations.length (v.sendX c pre' b ph' H' Lo' now)
+      (fun j => ({ n.bus with seen := n.bus.seen.set v.x now } : Bus).seen.getD j 0)) :
+    ∃ n' pre', n.poll v.x now = (n', [], some (.ok c)) ∧ NInv cfg M adr n' (v.sendX c pre' b ph' H' Lo' now) := by
+  have hr := hok.rate
+  have hd := h.deliverX hok now (Int.le_of_lt e.own)
+  have hp' : v.sx.s.poll v.sx.apps now (Bus.transmitting { n.bus with seen := n.bus.seen.set v.x now } v.x now)
+      (v.sx.rx ++ []) = .ok c := by rw [h.okx.apps, transmitting_seen, h.rxx]; exact hp
+  have hpe := Net.poll_eq n v.x now v.sx _ [] c h.gx h.okx.alive h.okx.online hd hp'
+  rw [htx] at hpe
+  have hxs : v.x < n.bus.seen.length := by rw [h.log.seen]; exact h.xlt
+  have htl := e.tl
+  have hnowH := h.now_le_H v.x now e
+  have hrate : 0 < n.bus.rate := by rw [h.log.rate]; exact hr
+  obtain ⟨old', e1, e2, e3, e4, e5, e6⟩ := Bus.send_txs { n.bus with seen := n.bus.seen.set v.x now } v.x now b h.log.drops hrate
+  have hspec := Bus.send_spec { n.bus with seen := n.bus.seen.set v.x now } v.x now b h.log.drops
+  refine ⟨_, old', hpe, ?_⟩
+  have hphs := hph old'
+  unfold NView.sendX at hphs ⊢
+  have hmem : ∀ o ∈ old', o ∈ n.bus.txs := fun o ho => e2 o ho
+  have hsub : old'.Sublist n.bus.txs := by
+    have : (Bus.send { n.bus with seen := n.bus.seen.set v.x now } v.x now b).txs =
+        (n.bus.txs.filter fun t => decide (n.bus.txEnd t + 100000 > now)) ++
+          [({ start := now, sender := v.x, bytes := b, dropped := false } : Transmission)] := by
+      rw [hspec]
+      simp only [List.filter_append, List.filter_cons, List.filter_nil]
+      have : decide (Bus.txEnd { n.bus with seen := n.bus.seen.set v.x now }
+          ({ start := now, sender := v.x, bytes := b, dropped := false } : Transmission) + 100000 > now) = true := by
+        have := Bus.byteEnd_pos n.bus hrate (b.length - 1)
+        unfold Bus.txEnd
+        simp only [decide_eq_true_eq]
+        show now + n.bus.byteEnd (b.length - 1) + 100000 > now
+        omega
+      rw [if_pos this]
+      rfl
+    rw [e1] at this
+    have hh := List.append_inj_left' this rfl
+    rw [hh]
+    exact List.filter_sublist
+  refine ⟨by simp only [List.length_set]; exact h.ring, by simp only [List.length_set]; exact h.xlt,
+    List.getElem?_set_self h.xlt, h.okx.step now _ _ c (by rw [← h.okx.apps]; exact hp') h1 h2 h3, ?_, e1, ?_, ?_, ?_, ?_, ?_,
+    h4, h5, ?_⟩
+  · -- the new log
+    simp only [List.length_set]
+    refine ⟨e3.trans h.log.rate, e5.trans h.log.corrupt, e6, by rw [e4]; simp [h.log.seen], ?_, ?_, ?_⟩
+    · rw [e1]
+      unfold CChained
+      rw [List.pairwise_append]
+      refine ⟨List.Pairwise.sublist hsub h.log.chained, List.pairwise_singleton _ _, ?_⟩
+      intro o ho t ht
+      simp only [List.mem_singleton] at ht
+      subst ht
+      exact hends o (hmem o ho)
+    · intro t ht
+      rw [e1] at ht
+      rcases List.mem_append.1 ht with ht | ht
+      · exact h.log.live t (hmem t ht)
+      · simp only [List.mem_singleton] at ht; subst ht; rfl
+    · intro t ht
+      rw [e1] at ht
+      rcases List.mem_append.1 ht with ht | ht
+      · exact h.log.kinds t (hmem t ht)
+      · simp only [List.mem_singleton] at ht; subst ht; exact hkind
+  · intro o ho
+    rw [e1] at ho
+    rw [e4]
+    simp only
+    rw [seen_set_self _ _ _ hxs]
+    rcases List.mem_append.1 ho with ho | ho
+    · exact .inr (hends o (hmem o ho))
+    · simp only [List.mem_singleton] at ho; subst ho; exact .inl rfl
+  · intro l hl o ho hs
+    obtain ⟨hl1, hl2⟩ := hown' l hl
+    rw [e1] at ho
+    rcases List.mem_append.1 ho with ho | ho
+    · have := hends o (hmem o ho); omega
+    · simp only [List.mem_singleton] at ho; subst ho; unfold cEnd; simp only; exact hl2
+  · intro j hj hjx
+    simp only [List.length_set] at hj
+    obtain ⟨st', hst', hL'⟩ := h.lis j hj hjx
+    refine ⟨st', by simp only; rw [List.getElem?_set_ne (Ne.symm hjx)]; exact hst', ?_⟩
+    have hLo' := (hL'.other v.x now (Ne.symm hjx))
+    refine LOk.send (b := { n.bus with seen := n.bus.seen.set v.x now }) hLo' h.ring (h.log.seenSet v.x now) hr v.x
+      (Ne.symm hjx) now b hbl hq1 hnowH hLo ?_ ?_ hP100 ?_ ?_ e4
+    · simp only; rw [seen_set_other _ _ _ _ (Ne.symm hjx)]; exact Int.le_trans (h.tls j hj) htl
+    · simp only; rw [seen_set_other _ _ _ _ (Ne.symm hjx)]; exact e.gap j hj
+    · intro t ht a
+      have hl := h.last
+      simp only at ht
+      rw [hl] at ht
+      cases ht
+      exact hnotok j hj hjx a
+    · show (Bus.send { n.bus with seen := n.bus.seen.set v.x now } v.x now b).txs = _
+      rw [hspec]
+  · intro j hj
+    simp only [List.length_set] at hj
+    rw [e4]
+    simp only
+    by_cases hjj : j = v.x
+    · rw [hjj, seen_set_self _ _ _ hxs]; exact Int.le_refl _
+    · rw [seen_set_other _ _ _ _ (Ne.symm hjj)]; exact Int.le_trans (h.tls j hj) htl
+  · intro t ht
+    rw [e1] at ht
+    rcases List.mem_append.1 ht with ht | ht
+    · exact Int.le_trans (h.tlt t (hmem t ht)) htl
+    · simp only [List.mem_singleton] at ht; subst ht; exact Int.le_refl _
+  · simp only [List.length_set]
+    rw [e4]
+    exact hphs
+
 end PV
